@@ -293,7 +293,7 @@ func init() {
 	// C19: three ledgers sharing a bucket (and one alone in another), same account names, references,
 	// idempotency keys and transaction ids everywhere; a ledger is added to the bucket mid-history.
 	register(Profile{Property: "C19", Name: "write-isolation", Gen: func(r *RNG, seed uint64, tier string) (*Scenario, *ExploreCfg) {
-		sc := &Scenario{Property: "C19", Profile: "write-isolation", Knobs: randomKnobs(r), Checks: []string{"isolation", "logs-match-ops", "replay", "conservation"}}
+		sc := &Scenario{Property: "C19", Profile: "write-isolation", Knobs: randomKnobs(r), Checks: []string{"isolation", "logs-match-ops", "replay", "conservation", "statements-stay-in-ledger"}}
 		g := &gen{r: r, sc: sc}
 		ledgers := []string{"l1", "l2", "l3", "solo"}
 		for _, l := range ledgers[:2] {
@@ -1045,7 +1045,7 @@ func init() {
 	// (one client each, running concurrently with the other ledger's client). Whatever the features, the
 	// transactions, logs, balances and current metadata must come out identical.
 	register(Profile{Property: "C35", Name: "feature-equivalence", Gen: func(r *RNG, seed uint64, tier string) (*Scenario, *ExploreCfg) {
-		sc := &Scenario{Property: "C35", Profile: "feature-equivalence", Knobs: randomKnobs(r), Checks: []string{"feature-equivalence", "hash-chain", "pcv", "conservation", "replay", "reads-respect-features"},
+		sc := &Scenario{Property: "C35", Profile: "feature-equivalence", Knobs: randomKnobs(r), Checks: []string{"feature-equivalence", "hash-chain", "pcv", "conservation", "replay", "reads-respect-features", "metadata-history-rows"},
 			Params: map[string]string{"lenient_reads": "1"}}
 		g := &gen{r: r, sc: sc}
 		draw := func() map[string]string {
